@@ -192,8 +192,10 @@ CLAIMED["C14"] = dict(
           "checks the limits as invariants over scripts of up to 4 calls with every boundary class of pointer, length, offset, size, parameter index and invoke tag in P4-P7. One script per transition of the one-call "
           "graph plus random scripts of up to 7 calls are compiled to Wasm contracts (results stored in memory and returned / logged) and executed with metering; outcome class (success / trap / interrupt kind / out of "
           "energy), every return code, return-value and log sizes, legacy state contents and DebugTracker's per-call energy (>= scheduled) must agree, a panic is a violation, and each script is re-run under reduced "
-          "budgets (must end out-of-energy or identically). InstanceHandles.tla behaviours (entries, iterators, locks, stale handles) are compiled to state host calls and the resulting persistent state is compared."),
-    note=("Not in the alphabet: signature verification, upgrade, policies, init-only functions, send (v0), nested invocation after an interrupt (C13 covers interrupts at the interpreter level). Out-of-window calls whose charge "
+          "budgets (must end out-of-energy or identically). InstanceHandles.tla behaviours (entries, iterators, locks, stale handles, interrupts during which the instance state was or was not updated) are compiled to state "
+          "host calls with an invoke at each interrupt; the harness plays the chain (re-entrant modification, v1::resume_receive with state_updated) and the invoke return codes, handle validity after the resume and the "
+          "resulting persistent state are compared."),
+    note=("Not in the alphabet: signature verdicts (windows only), upgrade, policies, init functions, send (v0); interrupt responses are successes without return data. Out-of-window calls whose charge "
           "depends on the claimed length may end out-of-energy instead of trapping. Exact remaining energy is not compared (only per-call lower bounds and budget monotonicity). Call-depth limit not exercised."),
     ref="4 C14")
 
